@@ -51,7 +51,9 @@ impl Out {
     /// a property violation observed on the implementation itself
     /// `sig` is the stable signature used for known-findings matching
     pub fn oracle(&mut self, property: &str, sig: &str, detail: &str) {
-        writeln!(self.oracle, "{property}\t{sig}\t{detail}").unwrap();
+        // 4th field: index of the op line this finding belongs to (the op is written right after its oracles ran,
+        // or was the last one written)
+        writeln!(self.oracle, "{property}\t{sig}\t{detail}\t{}", self.n_ops).unwrap();
         self.n_oracle += 1;
     }
 
